@@ -153,3 +153,51 @@ func BadStickyIgnored(w io.Writer) error {
 	io.WriteString(ew, "head\n")
 	return nil
 }
+
+// a line of a single cell is written out by text/tabwriter as soon as it ends
+func BadSingleCellLine(w io.Writer, n int) error {
+	tw := tabwriter.NewWriter(w, 0, 1, 1, ' ', 0)
+	for i := 0; i < n; i++ {
+		fmt.Fprintf(tw, "%d\t%d\t\n", i, i)
+	}
+	fmt.Fprint(tw, "END\n")
+	return tw.Flush()
+}
+
+func BadSingleCellFirstRow(w io.Writer, n int) error {
+	tw := tabwriter.NewWriter(w, 0, 1, 1, ' ', 0)
+	for i := 0; i < n; i++ {
+		for j := 0; j < i; j++ {
+			fmt.Fprintf(tw, "%d\t", j)
+		}
+		fmt.Fprint(tw, "0\n")
+	}
+	return tw.Flush()
+}
+
+func row(tw io.Writer, i int) {
+	for j := 0; j < i; j++ {
+		fmt.Fprintf(tw, "%d\t", j)
+	}
+	fmt.Fprint(tw, "0\t")
+}
+
+func GoodRowsThroughHelper(w io.Writer, n int) error {
+	tw := tabwriter.NewWriter(w, 0, 1, 1, ' ', 0)
+	for i := 0; i < n; i++ {
+		row(tw, i)
+		fmt.Fprint(tw, "\n")
+	}
+	return tw.Flush()
+}
+
+func GoodSingleCellChecked(w io.Writer, n int) error {
+	tw := tabwriter.NewWriter(w, 0, 1, 1, ' ', 0)
+	for i := 0; i < n; i++ {
+		fmt.Fprintf(tw, "%d\t%d\t\n", i, i)
+	}
+	if _, err := fmt.Fprint(tw, "END\n"); err != nil {
+		return err
+	}
+	return tw.Flush()
+}
